@@ -1337,6 +1337,22 @@ def signer_pubkey(W, t, check_body=True):
             break
     if is_call(t, "MsgSigner::public_key_bytes") and t[2]:
         return t[2][0]
+    if isinstance(t, tuple) and t and t[0] == "field":
+        # a copy of the public key kept in a field that only the constructor sets, computed there from the very key stored in `signing_key`
+        SG = "roughenough::sign::MsgSigner"
+        ctors = W.ctor_fields(SG)
+        if ctors and all(t[2] in f for (_, _, _, f) in ctors) and field_set_only_at_construction(W, SG, t[2]) and field_set_only_at_construction(W, SG, "signing_key"):
+            good = True
+            for (cfn, bb, idx, f) in ctors:
+                v = values.strip_payload(W.expand(f[t[2]]))
+                for _ in range(4):
+                    if is_call(v) and callee_name(v[1]) in ("to_vec", "as_bytes", "to_bytes", "as_ref", "into", "clone") and v[2]:
+                        v = values.strip_payload(W.expand(v[2][0]))
+                if not (is_call(v) and callee_name(v[1]) == "verifying_key" and "SigningKey" in v[1] and v[2] and
+                        values.strip_payload(W.expand(v[2][0])) == values.strip_payload(W.expand(f.get("signing_key")))):
+                    good = False
+            if good:
+                return t[1]
     if is_call(t) and callee_name(t[1]) == "verifying_key" and "SigningKey" in t[1] and t[2]:
         k = values.strip_payload(W.expand(t[2][0]))
         if isinstance(k, tuple) and k and k[0] == "field" and k[2] == "signing_key":
@@ -1480,6 +1496,36 @@ def array_copy_source(W, obj):
     if values.strip_payload(a[0]) != obj:
         return None     # only part of the array is written
     return a[1]
+
+
+def field_set_only_at_construction(W, adt, field):
+    """True when the (private) field is never assigned or mutably borrowed outside the aggregate expressions that construct the type."""
+    P = W.prog
+    cache = W.__dict__.setdefault("_field_const", {})
+    if (adt, field) in cache:
+        return cache[(adt, field)]
+    a = P.adts.get(adt)
+    ok = a is not None and bool(a.get("variants"))
+    if ok:
+        fl = [x for x in a["variants"][0]["fields"] if x["name"] == field]
+        ok = bool(fl) and fl[0]["vis"] != "pub"
+    if ok:
+        for fn in P.fns.values():
+            if fn.derived or not ok:
+                continue
+            for bl in fn.blocks:
+                for st in bl.stmts:
+                    if st["k"] != "assign":
+                        continue
+                    pj = [e for e in st["dst"].get("p", []) if isinstance(e, dict) and "f" in e]
+                    if pj and pj[-1].get("name") == field and pj[-1].get("adt") == adt:
+                        ok = False
+                    rv = st["rv"]
+                    if rv["k"] in ("ref", "rawptr") and (rv.get("mut") or rv["k"] == "rawptr"):
+                        if any(isinstance(e, dict) and e.get("name") == field and e.get("adt") == adt for e in rv["place"].get("p", [])):
+                            ok = False
+    cache[(adt, field)] = ok
+    return ok
 
 
 def immutable_field_ints(W, adt, field):
